@@ -51,6 +51,31 @@ func (f *TMemoryOutputBuffer) Write(buf []byte) (int, error) {
 	return f.TMemoryBuffer.Write(buf)
 }
 
+// WriteString writes a string to the buffer, subject to the same limit as
+// Write. TMemoryBuffer implements thrift.TRichTransport, so the binary and
+// compact protocols call WriteString and WriteByte directly instead of Write.
+func (f *TMemoryOutputBuffer) WriteString(s string) (int, error) {
+	if f.limit > 0 && uint(len(s)+f.Len()) > f.limit {
+		f.Reset()
+		return 0, thrift.NewTTransportException(
+			TRANSPORT_EXCEPTION_REQUEST_TOO_LARGE,
+			fmt.Sprintf("Buffer size reached (%d)", f.limit))
+	}
+	return f.TMemoryBuffer.WriteString(s)
+}
+
+// WriteByte writes a single byte to the buffer, subject to the same limit as
+// Write.
+func (f *TMemoryOutputBuffer) WriteByte(c byte) error {
+	if f.limit > 0 && uint(1+f.Len()) > f.limit {
+		f.Reset()
+		return thrift.NewTTransportException(
+			TRANSPORT_EXCEPTION_REQUEST_TOO_LARGE,
+			fmt.Sprintf("Buffer size reached (%d)", f.limit))
+	}
+	return f.TMemoryBuffer.WriteByte(c)
+}
+
 // Reset clears the buffer
 func (f *TMemoryOutputBuffer) Reset() {
 	f.TMemoryBuffer.Reset()
